@@ -169,8 +169,16 @@ func (c *Ctx) readerSeq(body []ast.Stmt, recvName string) (operandSeq, []string,
 	absJump := false
 	inspectNoLit(blk, func(x ast.Node) bool {
 		if as, ok := x.(*ast.AssignStmt); ok && len(as.Lhs) == 1 {
-			l := src(as.Lhs[0])
-			if l == recvName+".pc" || l == "i" {
+			isPC := false
+			switch lv := as.Lhs[0].(type) {
+			case *ast.SelectorExpr:
+				isPC = lv.Sel.Name == "pc"
+			case *ast.Ident:
+				if bt, ok := c.typeOf(lv).Underlying().(*types.Basic); ok && bt.Kind() == types.Int && recvName == "?" {
+					isPC = true // the disassembler's cursor
+				}
+			}
+			if isPC {
 				if as.Tok == token.ADD_ASSIGN {
 					adv++
 				} else if as.Tok == token.ASSIGN {
@@ -407,7 +415,7 @@ func ruleBC1(c *Ctx) {
 			c.R.Anchor("vm.bytecode." + fn)
 			return
 		}
-		c.R.Check(strings.Contains(sx(fd.Body), want), "vm.bytecode."+fn, "decoder width", fd.Pos(), "reads what the emitter wrote", "decoder no longer matches the emitter's width")
+		c.R.Check(strings.Contains(c.sxN(fd, fd.Body), want), "vm.bytecode."+fn, "decoder width", fd.Pos(), "reads what the emitter wrote", "decoder no longer matches the emitter's width")
 	}
 	// byte-level codec: writer and reader of 16-bit operands both delegate to encoding/binary big-endian
 	if w, r := c.FuncDecl("vm", "uint16ToByte"), c.FuncDecl("vm", "byteToUInt16"); w != nil && r != nil {
@@ -429,13 +437,13 @@ func ruleBC1(c *Ctx) {
 	} else {
 		c.R.Anchor("vm.uint16ToByte / vm.byteToUInt16")
 	}
-	chk("readConst", "Fun:(SelectorExpr b Sel:readUint16)")
-	chk("readMediumInt", "Fun:(SelectorExpr b Sel:readUint16)")
-	chk("readUint16", "High:(BinaryExpr offset Op:+ Y:2)")
-	chk("readUint8", "(IndexExpr (SelectorExpr b Sel:code) Index:offset)")
-	chk("emitConst", "Fun:(SelectorExpr b Sel:emitUint16) Args:[(CallExpr Fun:(SelectorExpr b Sel:addConst)")
-	chk("emitMediumInt", "Fun:(SelectorExpr b Sel:emitUint16)")
-	chk("placeholderForMediumInt", "Fun:(SelectorExpr b Sel:placeholderUint16)")
+	chk("readConst", "Fun:(SelectorExpr $r Sel:readUint16)")
+	chk("readMediumInt", "Fun:(SelectorExpr $r Sel:readUint16)")
+	chk("readUint16", "High:(BinaryExpr $p0 Op:+ Y:2)")
+	chk("readUint8", "(IndexExpr (SelectorExpr $r Sel:code) Index:$p0)")
+	chk("emitConst", "Fun:(SelectorExpr $r Sel:emitUint16) Args:[(CallExpr Fun:(SelectorExpr $r Sel:addConst)")
+	chk("emitMediumInt", "Fun:(SelectorExpr $r Sel:emitUint16)")
+	chk("placeholderForMediumInt", "Fun:(SelectorExpr $r Sel:placeholderUint16)")
 }
 
 // ---------- BC-2 ----------
@@ -498,12 +506,12 @@ func ruleBC2(c *Ctx) {
 			}
 			g := c.buildCFG(body)
 			guarded := false
-			for _, a := range c.callsTo(body, "util.Assert") {
-				be, ok := unparen(a.Args[0]).(*ast.BinaryExpr)
+			for _, a := range c.asserted(body) {
+				be, ok := unparen(a.cond).(*ast.BinaryExpr)
 				if !ok || be.Op != token.LEQ || sx(be.X) != sx(ce.Args[0]) {
 					continue
 				}
-				if o := c.objOf(be.Y); o != nil && qual(o) == want && g.dominates(a, ce) {
+				if o := c.objOf(be.Y); o != nil && qual(o) == want && g.dominates(a.node, ce) {
 					guarded = true
 				}
 			}
@@ -555,16 +563,16 @@ func ruleBC6(c *Ctx) {
 		}
 	}
 	if gs := c.FuncDecl("vm", "stack.growStack"); gs != nil {
-		s := sx(gs.Body)
+		s := c.sxN(gs, gs.Body)
 		grow := c.Obj("vm", "stackGrow")
 		pos := false
 		if cst, ok := grow.(*types.Const); ok && constant.Sign(cst.Val()) > 0 {
 			pos = true
 		}
-		okMake := strings.Contains(s, "Fun:make") && strings.Contains(s, "(BinaryExpr (SelectorExpr s Sel:sp) Op:+ Y:stackGrow)") && pos
+		okMake := strings.Contains(s, "Fun:make") && strings.Contains(s, "(BinaryExpr (SelectorExpr $r Sel:sp) Op:+ Y:stackGrow)") && pos
 		cp := c.callsTo(gs.Body, "builtin.copy")
-		okCopy := len(cp) == 1 && sx(cp[0].Args[1]) == "(SelectorExpr s Sel:stack)"
-		okAssign := strings.Contains(s, "(AssignStmt Lhs:[(SelectorExpr s Sel:stack)] Tok:= Rhs:[n])")
+		okCopy := len(cp) == 1 && c.sxN(gs, cp[0].Args[1]) == "(SelectorExpr $r Sel:stack)" && c.hasNode(gs, gs.Body, "(ExprStmt (CallExpr Fun:copy Args:[$0 (SelectorExpr $r Sel:stack)]))", false)
+		okAssign := strings.Contains(s, "(AssignStmt Lhs:[(SelectorExpr $r Sel:stack)] Tok:= Rhs:[$0])")
 		c.R.Check(okMake, "vm.stack.growStack", "new slice longer by a positive constant", gs.Pos(), "make(sp + stackGrow), stackGrow > 0", "growth does not enlarge the stack by a positive constant")
 		c.R.Check(okCopy, "vm.stack.growStack", "whole old stack copied", gs.Pos(), "copy(n, s.stack)", "growth does not copy the complete old stack: operands below the top are lost or the top becomes nil")
 		c.R.Check(okAssign, "vm.stack.growStack", "new slice installed", gs.Pos(), "s.stack = n", "the grown slice is not installed")
@@ -572,27 +580,31 @@ func ruleBC6(c *Ctx) {
 		c.R.Anchor("vm.stack.growStack")
 	}
 	if pu := c.FuncDecl("vm", "stack.Push"); pu != nil {
-		s := sx(pu.Body.List)
-		okP := s == "[(IfStmt Cond:(BinaryExpr (SelectorExpr s Sel:sp) Op:== Y:(CallExpr Fun:len Args:[(SelectorExpr s Sel:stack)])) Body:(BlockStmt [(ExprStmt (CallExpr Fun:(SelectorExpr s Sel:growStack)))])) (AssignStmt Lhs:[(IndexExpr (SelectorExpr s Sel:stack) Index:(SelectorExpr s Sel:sp))] Tok:= Rhs:[v]) (IncDecStmt (SelectorExpr s Sel:sp) Tok:++)]"
+		s := c.sxN(pu, pu.Body.List)
+		okP := s == "[(IfStmt Cond:(BinaryExpr (SelectorExpr $r Sel:sp) Op:== Y:(CallExpr Fun:len Args:[(SelectorExpr $r Sel:stack)])) Body:(BlockStmt [(ExprStmt (CallExpr Fun:(SelectorExpr $r Sel:growStack)))])) (AssignStmt Lhs:[(IndexExpr (SelectorExpr $r Sel:stack) Index:(SelectorExpr $r Sel:sp))] Tok:= Rhs:[$p0]) (IncDecStmt (SelectorExpr $r Sel:sp) Tok:++)]"
 		c.R.Check(okP, "vm.stack.Push", "grow when full, store at sp, sp++", pu.Pos(), "growth precedes every store", "Push is not `if sp == len { grow }; stack[sp] = v; sp++`")
 	} else {
 		c.R.Anchor("vm.stack.Push")
 	}
 	if po := c.FuncDecl("vm", "stack.Pop"); po != nil {
 		g := c.buildCFG(po.Body)
-		as := c.callsTo(po.Body, "util.Assert")
+		as := c.asserted(po.Body)
 		var read *ast.IndexExpr
 		inspectNoLit(po.Body, func(x ast.Node) bool {
-			if ix, ok := x.(*ast.IndexExpr); ok && sx(ix) == "(IndexExpr (SelectorExpr s Sel:stack) Index:(BinaryExpr (SelectorExpr s Sel:sp) Op:- Y:1))" {
+			if ix, ok := x.(*ast.IndexExpr); ok && c.sxN(po, ix) == "(IndexExpr (SelectorExpr $r Sel:stack) Index:(BinaryExpr (SelectorExpr $r Sel:sp) Op:- Y:1))" {
 				read = ix
 			}
 			return true
 		})
-		okA := len(as) == 1 && read != nil && g.dominates(as[0], read) && strings.Contains(sx(as[0].Args[0]), "Op:!") && strings.Contains(sx(as[0].Args[0]), "Sel:Empty")
-		dec := strings.Contains(sx(po.Body), "(IncDecStmt (SelectorExpr s Sel:sp) Tok:--)")
+		okA := false
+		if len(as) == 1 && read != nil && g.dominates(as[0].node, read) {
+			cs := c.sxN(po, as[0].cond)
+			okA = cs == "(UnaryExpr Op:! (CallExpr Fun:(SelectorExpr $r Sel:Empty)))" || cs == "(BinaryExpr (SelectorExpr $r Sel:sp) Op:> Y:0)" || cs == "(BinaryExpr (SelectorExpr $r Sel:sp) Op:!= Y:0)" || cs == "(BinaryExpr (SelectorExpr $r Sel:sp) Op:>= Y:1)"
+		}
+		dec := strings.Contains(c.sxN(po, po.Body), "(IncDecStmt (SelectorExpr $r Sel:sp) Tok:--)")
 		c.R.Check(okA && dec, "vm.stack.Pop", "assert non-empty, read sp-1, sp--", po.Pos(), "underflow is an assertion failure, never an out-of-range read", "Pop does not assert non-emptiness before reading stack[sp-1] / does not decrement sp")
 		if em := c.FuncDecl("vm", "stack.Empty"); em != nil {
-			c.R.Check(sx(em.Body.List) == "[(ReturnStmt Results:[(BinaryExpr (SelectorExpr s Sel:sp) Op:== Y:0)])]", "vm.stack.Empty", "sp == 0", em.Pos(), "emptiness is sp == 0", "Empty is not sp == 0")
+			c.R.Check(c.sxN(em, em.Body.List) == "[(ReturnStmt Results:[(BinaryExpr (SelectorExpr $r Sel:sp) Op:== Y:0)])]", "vm.stack.Empty", "sp == 0", em.Pos(), "emptiness is sp == 0", "Empty is not sp == 0")
 		}
 	} else {
 		c.R.Anchor("vm.stack.Pop")
@@ -608,7 +620,7 @@ func ruleBC7(c *Ctx) {
 		c.R.Anchor("vm.Compiler.Compile")
 		return
 	}
-	okPool := strings.Contains(sx(cc.Body), "(KeyValueExpr Key:cp Value:(SelectorExpr c Sel:cp))")
+	okPool := strings.Contains(c.sxN(cc, cc.Body), "(KeyValueExpr Key:cp Value:(SelectorExpr $r Sel:cp))")
 	c.R.Check(okPool, "vm.Compiler.Compile", "bytecode gets the compiler's pool", cc.Pos(), "&bytecode{cp: c.cp}", "a compiled body does not share the compiler's constant pool")
 	endLast := false
 	if n := len(cc.Body.List); n >= 2 {
@@ -620,7 +632,7 @@ func ruleBC7(c *Ctx) {
 	}
 	c.R.Check(endLast, "vm.Compiler.Compile", "every body ends with end()", cc.Pos(), "compile; end; return", "a body is not terminated by end() after compilation")
 	if e := c.FuncDecl("vm", "bytecode.end"); e != nil {
-		c.R.Check(sx(e.Body.List) == "[(ExprStmt (CallExpr Fun:(SelectorExpr b Sel:emitOP) Args:[OP_RETURN]))]", "vm.bytecode.end", "emits OP_RETURN", e.Pos(), "the last instruction of every body is OP_RETURN", "end() does not emit exactly OP_RETURN")
+		c.R.Check(c.sxN(e, e.Body.List) == "[(ExprStmt (CallExpr Fun:(SelectorExpr $r Sel:emitOP) Args:[OP_RETURN]))]", "vm.bytecode.end", "emits OP_RETURN", e.Pos(), "the last instruction of every body is OP_RETURN", "end() does not emit exactly OP_RETURN")
 	}
 	if nc := c.FuncDecl("vm", "NewCompile"); nc != nil {
 		c.R.Check(strings.Contains(sx(nc.Body), "(KeyValueExpr Key:cp Value:(UnaryExpr Op:& (CompositeLit Type:cp)))"), "vm.NewCompile", "fresh pool per compiler", nc.Pos(), "&Compiler{cp: &cp{}}", "compilers share a pool")
@@ -642,7 +654,7 @@ func ruleBC7(c *Ctx) {
 		c.R.Check(okT, "vm.bytecode.compileInvokeStatic", "thunk bodies compiled by the same compiler", cis.Pos(), "c.Compile(arg, env)", "thunk bodies are compiled with another compiler (another pool)")
 	}
 	if ac := c.FuncDecl("vm", "bytecode.addConst"); ac != nil {
-		okA := sx(ac.Body.List) == "[(AssignStmt Lhs:[(SelectorExpr b Sel:data)] Tok:= Rhs:[(CallExpr Fun:append Args:[(SelectorExpr b Sel:data) v])]) (ReturnStmt Results:[(BinaryExpr (CallExpr Fun:len Args:[(SelectorExpr b Sel:data)]) Op:- Y:1)])]"
+		okA := c.sxN(ac, ac.Body.List) == "[(AssignStmt Lhs:[(SelectorExpr $r Sel:data)] Tok:= Rhs:[(CallExpr Fun:append Args:[(SelectorExpr $r Sel:data) $p0])]) (ReturnStmt Results:[(BinaryExpr (CallExpr Fun:len Args:[(SelectorExpr $r Sel:data)]) Op:- Y:1)])]"
 		if okA {
 			c.R.OK("vm.bytecode.addConst", "fresh slot per constant", ac.Pos(), "append; return len-1")
 		} else {
@@ -766,7 +778,7 @@ func ruleSibling2(c *Ctx) {
 		if len(cc.Body) == 0 {
 			// identity: no pop, no push  ==  return args[0]
 			rets := returnsOf(lit.Body)
-			okID := len(rets) == 1 && sx(rets[0].Results[0]) == "(IndexExpr args Index:0)" && arity == 1
+			okID := len(rets) == 1 && c.sxN(lit, rets[0].Results[0]) == "(IndexExpr $p0 Index:0)" && arity == 1
 			c.R.Check(okID, "vm.switchThreading", "SIBLING-2 "+desc, cc.Pos(), "empty handler == `return args[0]`", "empty handler but the built-in is not the identity on its single argument")
 			continue
 		}
@@ -800,8 +812,15 @@ func ruleSibling2(c *Ctx) {
 		got := sxWith(pushes[0].Args[0], hsub)
 		// library side
 		ldefs := c.localDefs(lit.Body)
+		var litParam types.Object
+		if len(lit.Type.Params.List) == 1 && len(lit.Type.Params.List[0].Names) == 1 {
+			litParam = c.objOf(lit.Type.Params.List[0].Names[0])
+		}
 		var lsub func(x ast.Node) (string, bool)
 		lsub = func(x ast.Node) (string, bool) {
+			if id, ok := x.(*ast.Ident); ok && litParam != nil && c.objOf(id) == litParam {
+				return "args", true // the argument vector, whatever it is called
+			}
 			if id, ok := x.(*ast.Ident); ok {
 				if d, ok := ldefs[c.objOf(id)]; ok && depth < 20 {
 					depth++
@@ -844,6 +863,9 @@ func compact(s string) string {
 // iteOfBuiltin abstracts a lazy built-in body to ite(c,t,e) / not(a) over thunk indices.
 func (c *Ctx) iteOfBuiltin(lit *ast.FuncLit) string {
 	defs := c.localDefs(lit.Body)
+	if len(lit.Type.Params.List) == 1 && len(lit.Type.Params.List[0].Names) == 1 {
+		defs[c.objOf(lit.Type.Params.List[0].Names[0])] = ast.NewIdent("args") // the argument vector, whatever it is called
+	}
 	thunk := func(e ast.Expr) string {
 		// <args[k].Fun()>.Call()[.Bool().V | .Bool().Vl()]
 		s := c.sxInl(e, defs)
@@ -937,9 +959,9 @@ func ruleSibling3(c *Ctx) {
 				return true
 			}
 			arg := func(e ast.Expr) string {
-				s := sx(e)
+				s := c.sxN(lit, e)
 				for k := 0; k < 4; k++ {
-					if s == fmt.Sprintf("(IndexExpr args Index:%d)", k) {
+					if s == fmt.Sprintf("(IndexExpr $p2 Index:%d)", k) {
 						return fmt.Sprintf("a%d", k)
 					}
 				}
@@ -961,8 +983,8 @@ func ruleSibling3(c *Ctx) {
 					}
 				}
 			} else if len(lit.Body.List) == 2 {
-				s := sx(lit.Body.List)
-				if s == "[(ExprStmt (CallExpr Fun:(SelectorExpr b Sel:compile) Args:[c (IndexExpr args Index:0) env])) (ExprStmt (CallExpr Fun:(SelectorExpr b Sel:emitOP) Args:[OP_LOGICAL_NOT]))]" {
+				s := c.sxN(lit, lit.Body.List)
+				if s == "[(ExprStmt (CallExpr Fun:(SelectorExpr $p1 Sel:compile) Args:[$p0 (IndexExpr $p2 Index:0) $p3])) (ExprStmt (CallExpr Fun:(SelectorExpr $p1 Sel:emitOP) Args:[OP_LOGICAL_NOT]))]" {
 					shape = "not(a0)"
 				}
 			}
@@ -1001,15 +1023,15 @@ func ruleSibling3(c *Ctx) {
 	m := c.opcodes()
 	if m != nil {
 		if cc := m.cases["OP_LOGICAL_NOT"]; cc != nil {
-			c.R.Check(sx(cc.Body) == "[(ExprStmt (CallExpr Fun:(SelectorExpr v Sel:Push) Args:[(CallExpr Fun:(SelectorExpr val Sel:Bool) Args:[(UnaryExpr Op:! (SelectorExpr (CallExpr Fun:(SelectorExpr (CallExpr Fun:(SelectorExpr v Sel:Pop)) Sel:Bool)) Sel:V))])]))]", "vm.switchThreading", "SIBLING-3 OP_LOGICAL_NOT negates", cc.Pos(), "push(!pop)", "OP_LOGICAL_NOT is not push(!pop)")
+			c.R.Check(c.sxN(m.swFn, cc.Body) == "[(ExprStmt (CallExpr Fun:(SelectorExpr $p0 Sel:Push) Args:[(CallExpr Fun:(SelectorExpr val Sel:Bool) Args:[(UnaryExpr Op:! (SelectorExpr (CallExpr Fun:(SelectorExpr (CallExpr Fun:(SelectorExpr $p0 Sel:Pop)) Sel:Bool)) Sel:V))])]))]", "vm.switchThreading", "SIBLING-3 OP_LOGICAL_NOT negates", cc.Pos(), "push(!pop)", "OP_LOGICAL_NOT is not push(!pop)")
 		}
 		if cc := m.cases["OP_IF_TRUE"]; cc != nil {
-			s := sx(cc.Body)
-			okIf := strings.Contains(s, "(IfStmt Cond:(UnaryExpr Op:! (SelectorExpr (CallExpr Fun:(SelectorExpr (CallExpr Fun:(SelectorExpr v Sel:Pop)) Sel:Bool)) Sel:V)) Body:(BlockStmt [(AssignStmt Lhs:[(SelectorExpr v Sel:pc)] Tok:= Rhs:[fpc])]))")
+			s := c.sxN(m.swFn, cc.Body)
+			okIf := strings.HasPrefix(s, "[(AssignStmt Lhs:[$0 $1] Tok::= Rhs:[(CallExpr Fun:(SelectorExpr $p0 Sel:readMediumInt)") && strings.Contains(s, "(IfStmt Cond:(UnaryExpr Op:! (SelectorExpr (CallExpr Fun:(SelectorExpr (CallExpr Fun:(SelectorExpr $p0 Sel:Pop)) Sel:Bool)) Sel:V)) Body:(BlockStmt [(AssignStmt Lhs:[(SelectorExpr $p0 Sel:pc)] Tok:= Rhs:[$0])]))")
 			c.R.Check(okIf, "vm.switchThreading", "SIBLING-3 OP_IF_TRUE jumps to its operand iff the popped condition is false", cc.Pos(), "falls through on true", "OP_IF_TRUE does not jump exactly when the condition is false")
 		}
 		if cc := m.cases["OP_JUMP"]; cc != nil {
-			c.R.Check(strings.Contains(sx(cc.Body), "(AssignStmt Lhs:[(SelectorExpr v Sel:pc)] Tok:= Rhs:[off])"), "vm.switchThreading", "SIBLING-3 OP_JUMP sets pc to its operand", cc.Pos(), "unconditional", "OP_JUMP does not set pc to its operand")
+			c.R.Check(strings.HasPrefix(c.sxN(m.swFn, cc.Body), "[(AssignStmt Lhs:[$0 _] Tok::= Rhs:[(CallExpr Fun:(SelectorExpr $p0 Sel:readMediumInt)") && strings.Contains(c.sxN(m.swFn, cc.Body), "(AssignStmt Lhs:[(SelectorExpr $p0 Sel:pc)] Tok:= Rhs:[$0])"), "vm.switchThreading", "SIBLING-3 OP_JUMP sets pc to its operand", cc.Pos(), "unconditional", "OP_JUMP does not set pc to its operand")
 		}
 	}
 }
